@@ -61,11 +61,13 @@ func noteUncovered(ctx *core.Ctx) {
 
 type misuseCase struct {
 	Op       string `json:"op"`
-	N        int    `json:"n"`         // term count for multi-scalar ops
-	ZeroPos  int    `json:"zero_pos"`  // index of the zero-valued input position; -1: none (receiver-only zero)
-	ZeroKind int    `json:"zero_kind"` // 0 new(Point), 1 &Point{}, 2 var, 3 after failed SetBytes, 4 after failed SetExtendedCoordinates
-	Vals     [4]int `json:"vals"`      // alphabet indices for the other positions
-	NS       int    `json:"ns"`        // scalar slice length (multi-scalar); -1 = same as N
+	N        int    `json:"n"`                     // term count for multi-scalar ops
+	ZeroPos  int    `json:"zero_pos"`              // index of the zero-valued input position; -1: none (receiver-only zero)
+	ZeroKind int    `json:"zero_kind"`             // 0 new(Point), 1 &Point{}, 2 var, 3 after failed SetBytes, 4 after failed SetExtendedCoordinates
+	Vals     [4]int `json:"vals"`                  // alphabet indices for the other positions
+	NS       int    `json:"ns"`                    // scalar slice length (multi-scalar); -1 = same as N
+	ZeroSc   bool   `json:"zero_scalar,omitempty"` // the scalar paired with the zero-valued point is 0
+	SamePtr  bool   `json:"same_ptr,omitempty"`    // every Point input position holds the SAME zero-valued pointer
 }
 
 func zeroPoint(kind int) *edwards25519.Point {
@@ -123,8 +125,17 @@ func runMisuse(c misuseCase) (panicked bool, msg string, recv *edwards25519.Poin
 			in[i] = alpha.MakePoint(al[c.Vals[i%4]], []int{0, 6, 3, 5}[i%4])
 		}
 	}
+	if c.SamePtr {
+		z := zeroPoint(c.ZeroKind)
+		for i := range in {
+			in[i] = z
+		}
+	}
 	recv = zeroPoint(c.ZeroKind) // pure receivers are always zero-valued here
 	k1, k2 := mkScalar(alpha.GenericScalar), mkScalar(big.NewInt(8))
+	if c.ZeroSc {
+		k1 = edwards25519.NewScalar()
+	}
 	defer func() {
 		if r := recover(); r != nil {
 			panicked = true
@@ -164,6 +175,11 @@ func runMisuse(c misuseCase) (panicked bool, msg string, recv *edwards25519.Poin
 		sc := make([]*edwards25519.Scalar, ns)
 		for i := range sc {
 			sc[i] = []*edwards25519.Scalar{k1, k2, k1}[i%3]
+			if c.ZeroSc && i == c.ZeroPos {
+				sc[i] = edwards25519.NewScalar()
+			} else if c.ZeroSc {
+				sc[i] = k2
+			}
 		}
 		if c.Op == "MultiScalarMult" {
 			recv.MultiScalarMult(sc, in)
@@ -181,9 +197,9 @@ var subC15 = core.NewSub("C15/misuse", func(w *core.Worker, c misuseCase) *core.
 		ns = c.N
 	}
 	multi := c.Op == "MultiScalarMult" || c.Op == "VarTimeMultiScalarMult"
-	wantPanic := c.ZeroPos >= 0 || (multi && ns != c.N)
+	wantPanic := c.ZeroPos >= 0 || (multi && ns != c.N) || (c.SamePtr && misuseInputs(c.Op, c.N) > 0)
 	w.Distinct("outcome", []byte{b2b(panicked)})
-	w.Distinct("nontrivial:cells", []byte(fmt.Sprint(c.Op, c.N, c.ZeroPos, ns, panicked)))
+	w.Distinct("nontrivial:cells", []byte(fmt.Sprint(c.Op, c.N, c.ZeroPos, ns, panicked, c.ZeroSc, c.SamePtr)))
 	if wantPanic && !panicked {
 		if c.ZeroPos >= 0 {
 			return core.Failf("%s (n=%d) did not panic with a zero-value Point (kind %d) at input position %d", c.Op, c.N, c.ZeroKind, c.ZeroPos)
@@ -250,6 +266,25 @@ func runC15(ctx *core.Ctx) {
 				}
 				for t := 0; t < tuples; t++ {
 					cases = append(cases, misuseCase{Op: o.op, N: o.n, ZeroPos: zp, ZeroKind: zk, Vals: [4]int{t % 4, (t / 4) % 4, (t / 16) % 4, (t + 1) % 4}, NS: -1})
+				}
+			}
+		}
+	}
+	// the scalar paired with the zero-valued point is itself zero (a term that
+	// "contributes nothing" must still be checked), and the same zero-valued
+	// pointer in every input position
+	for _, o := range ops {
+		nin := misuseInputs(o.op, o.n)
+		if nin == 0 {
+			continue
+		}
+		for zk := 0; zk < 5; zk++ {
+			cells++
+			cases = append(cases, misuseCase{Op: o.op, N: o.n, ZeroPos: 0, ZeroKind: zk, SamePtr: true, NS: -1})
+			cases = append(cases, misuseCase{Op: o.op, N: o.n, ZeroPos: 0, ZeroKind: zk, SamePtr: true, ZeroSc: true, NS: -1})
+			for zp := 0; zp < nin; zp++ {
+				for t := 0; t < 4; t++ {
+					cases = append(cases, misuseCase{Op: o.op, N: o.n, ZeroPos: zp, ZeroKind: zk, ZeroSc: true, Vals: [4]int{t, (t + 1) % 4, (t + 2) % 4, (t + 3) % 4}, NS: -1})
 				}
 			}
 		}
